@@ -310,6 +310,19 @@ operator% (mpz_class v1, mpz_class v2)
   if (v2.m_u == 0)
     int_error (describe_div_0 (v1, v2, '%'));
 
-  mpz_class d = v1 / v2;
-  return v1 - v2 * d;
+  // Compute on magnitudes.  Going through v1 - v2 * (v1 / v2) would
+  // overflow in intermediate results even though the remainder itself
+  // is always representable.
+  bool neg1 = v1 < 0;
+  bool neg2 = v2 < 0;
+  uint64_t a = neg1 ? (-v1).m_u : v1.m_u;
+  uint64_t b = neg2 ? (-v2).m_u : v2.m_u;
+
+  // The result takes the sign of the divisor.
+  uint64_t r = a % b;
+  if (r != 0 && neg1 != neg2)
+    r = b - r;
+
+  mpz_class ret {r, signedness::unsign};
+  return neg2 ? -ret : ret;
 }
